@@ -231,6 +231,7 @@ func Spec(big int) []Node {
 		{Rel: "rootfs/opt/x", Kind: "dir", Mode: 0o700},
 		{Rel: "rootfs/opt/x/f", Kind: "file", Mode: 0o644, Data: text("f", 30)},
 		{Rel: "rootfs/sbin", Kind: "symlink", Target: "usr/sbin"},
+		{Rel: "rootfs/mnt", Kind: "dir", Mode: 0o755}, // an empty directory of the filesystem package
 	} {
 		ns = append(ns, n)
 	}
